@@ -175,6 +175,7 @@ theorem vdLoop_entry (fuel : Nat) (ty : UInt8) (k v rest : Bytes) (d : VarDict) 
   have h4 : ¬ ((v ++ rest).length < v.length) := by simp
   simp only [h4, ↓reduceIte, List.take_left', List.drop_left']
   unfold entryVal at hval
+  unfold vdTyped
   by_cases t1 : ty = 0x42
   · subst t1
     simp only [↓reduceIte] at hval
